@@ -90,3 +90,26 @@ void ok_alias_order(ep2_t r, const ep2_t p, const ep2_t q) {
 	fp2_mul(r->z, r->x, r->y);
 	r->coord = PROJC;
 }
+
+/* the parameter is assumed negative and to fit one digit */
+void bad_par_sign__neg(ep2_t r, const ep2_t p) {
+	bn_t x;
+	bn_null(x);
+	bn_new(x);
+	fp_prime_get_par(x);
+	ep2_mul_dig(r, p, x->dp[0]);
+	ep2_neg(r, r);
+	bn_free(x);
+}
+
+void ok_par_sign(ep2_t r, const ep2_t p) {
+	bn_t x;
+	bn_null(x);
+	bn_new(x);
+	fp_prime_get_par(x);
+	ep2_mul_dig(r, p, x->dp[0]);
+	if (bn_sign(x) == RLC_NEG) {
+		ep2_neg(r, r);
+	}
+	bn_free(x);
+}
